@@ -777,6 +777,11 @@ class Scanner:
         f = c.func
         p = self.path(sc, f)
         txt = sc.mod.text(f)
+        if p is not None and (p in ("time.time", "time.time_ns", "time.perf_counter", "time.perf_counter_ns", "time.monotonic", "time.monotonic_ns",
+                                      "time.process_time", "os.getpid", "os.times") or p.startswith("datetime.") or p.startswith("uuid.")):
+            # wall-clock / process-dependent values: whatever is decided from them differs from run to run
+            self.mark(handled, f)
+            return self.add_site(sc, c, "KUnknown", p, "SrcUnknown", "clock / process dependent value")
         if isinstance(f, ast.Name) and f.id == "hash" and p is None:
             # hash() of a str / bytes is salted per interpreter process (PYTHONHASHSEED): whatever is derived from it differs between runs
             self.mark(handled, f)
